@@ -157,6 +157,7 @@ type specFnInfo struct {
 	ret   *STy
 	ptys  []*STy
 	busy  bool
+	rec   bool
 }
 
 func newExec(p *Program, w *World) *Exec {
